@@ -389,11 +389,18 @@ P("C19", "translation_validation", "conversion chains vs std (implementation vs 
   "std's from_utf8 / from_utf8_lossy. gen/api.py regenerates, on every run, the list of every conversion / formatting "
   "trait impl the source declares (AsRef, From, TryFrom, TryAsRef, Borrow, FromStr, Extend, FromIterator, IntoIterator, "
   "Default, Deref, ToOwned, Display: 179 impls); conv_impls_covered proves it equal to the list the oracle's chains were "
-  "written against, so a conversion added to or removed from the crate is reported.",
+  "written against, so a conversion added to or removed from the crate is reported. The to_str / lossy / Display clause has a Lean "
+  "model of its own (Spec/Lossy.lean: the standard lossy decoding, substitution of maximal subparts) compared with the crate's "
+  "to_str, to_string_lossy, display() and Display of every family on every run (`lossy` lines), and theorems for every byte string "
+  "(Props/C19b): to_str is Some exactly for valid UTF-8 and then the input; the lossy text is always valid UTF-8, equals the input "
+  "exactly for valid input, is idempotent, keeps every ASCII byte (separators, dots, colons) in order and is at most 3x as long.",
   TV_NOTE + "The repr(transparent) pointer casts are exercised, not proved. conv_impls_covered is a statement about the "
   "regenerated table (regex extraction, trusted), not about the behaviour of the conversions.",
-  theorems=["TP.C19.conv_impls_covered"],
-  rule="all byte strings <= 4 over a 9-byte alphabet with valid and invalid UTF-8 sequences; non-trivial = contains a non-ASCII byte", design_ref="§5 C19")
+  theorems=["TP.C19.conv_impls_covered", "TP.C19.toStr_some_iff", "TP.C19.toStr_eq", "TP.C19.lossy_valid", "TP.C19.lossy_of_valid",
+            "TP.C19.lossy_eq_self_iff", "TP.C19.lossy_idempotent", "TP.C19.toStr_eq_display", "TP.C19.lossy_ascii",
+            "TP.C19.lossy_length_le", "TP.C19.replCount_zero_iff"],
+  modules=["TypedPathVerif.Props.C19b"],
+  rule="all byte strings <= 4 over a 9-byte alphabet with valid and invalid UTF-8 sequences; lossy lines: every string <= 3 (thorough 4) over 25 bytes at the class edges of UTF-8 lead / continuation bytes, the UTF-8 and path domains; non-trivial = contains a non-ASCII byte", design_ref="§5 C19")
 
 P("C20", "translation_validation", "two builds (std / no-default-features) vs one model, op by op + Lean theorem over the generated cfg-site table",
   "The harness is built in both feature configurations; both run the same op file (a slice of every other property's "
